@@ -1,7 +1,9 @@
 package e1
 
 import (
+	"container/heap"
 	"fmt"
+	"runtime"
 	"testing"
 	"testing/synctest"
 	"time"
@@ -68,6 +70,9 @@ func runStop(t *testing.T, rc *core.RunCtx) {
 		if tp.Chance(1, 4) {
 			beh.MaxHeaders = 1 + tp.Intn(4)
 		}
+		if tp.Chance(1, 3) {
+			beh.DupPct = 20 + tp.Intn(70)
+		}
 		beh.TxMode = tp.Intn(4)
 		beh.RejectCode = wire.RejectInvalid
 		beh.RejectReason = "bad-txns"
@@ -86,8 +91,18 @@ func runStop(t *testing.T, rc *core.RunCtx) {
 		}
 	}()
 
+	// One run in three: a block-manager goroutine is parked between two
+	// steps of one chain change (hook H7) and Stop is called at that very
+	// instant.
+	var parkPred func() bool
+	if tp.Chance(1, 3) {
+		site := yieldSites[tp.Intn(len(yieldSites))]
+		w.armYield(site, 1+tp.Intn(6), time.Duration(1+tp.Intn(5000))*time.Millisecond)
+		parkPred = func() bool { return w.parkedAt() != "" }
+	}
+
 	// Phase 1: let it run for a while (possibly not even connected yet).
-	w.runFor(time.Duration(tp.Intn(25000))*time.Millisecond, nil)
+	w.runFor(time.Duration(tp.Intn(25000))*time.Millisecond, parkPred)
 
 	// Phase 2: put work in flight.
 	var calls []*pendingCall
@@ -197,9 +212,14 @@ func runStop(t *testing.T, rc *core.RunCtx) {
 				rc.Probe("reorg_before_stop")
 			}
 		}
-		w.runFor(time.Duration(tp.Intn(3000))*time.Millisecond, nil)
+		if parkPred != nil && parkPred() {
+			break
+		}
+		w.runFor(time.Duration(tp.Intn(3000))*time.Millisecond, parkPred)
 	}
-	w.runFor(time.Duration(tp.Intn(8000))*time.Millisecond, nil)
+	if parkPred == nil || !parkPred() {
+		w.runFor(time.Duration(tp.Intn(8000))*time.Millisecond, parkPred)
+	}
 	synctest.Wait()
 	pendingAtStop := 0
 	for _, c := range calls {
@@ -217,6 +237,37 @@ func runStop(t *testing.T, rc *core.RunCtx) {
 	}
 	if pendingAtStop > 0 {
 		state += "+calls"
+	}
+	if site := w.parkedAt(); site != "" {
+		state += "+parked:" + site
+		rc.Probe("stop_while_parked_" + site)
+	}
+	// Abrupt mode: Stop does not wait for a quiet client. The next network
+	// deliveries (everything scheduled within a short window after the
+	// first) are handed over in one go and Stop is called while the client
+	// is still working through them.
+	if w.parkedAt() == "" && tp.Chance(1, 2) && len(w.evq) > 0 {
+		window := []time.Duration{0, 100 * time.Millisecond, 2 * time.Second}[tp.Intn(3)]
+		first := w.evq[0].at
+		if d := time.Until(first); d > 0 {
+			time.Sleep(d)
+		}
+		k := 0
+		for len(w.evq) > 0 && !w.evq[0].at.After(first.Add(window)) && k < 40 {
+			ev := heap.Pop(&w.evq).(*event)
+			ev.fn()
+			k++
+		}
+		// Let the client start on them: a drawn number of scheduler
+		// yields (no quiescence wait), so that Stop lands while a
+		// message is between the connection and the end of its
+		// handler.
+		for y := tp.Intn(24); y > 0; y-- {
+			runtime.Gosched()
+		}
+		state += "+abrupt"
+		rc.Probe("stop_abrupt")
+		rc.Logf("t=%s abrupt: %d network events handed over right before Stop (window %v)", w.clock(), k, window)
 	}
 	rc.Logf("t=%s STOP (state %s, %d calls pending)", w.clock(), state, pendingAtStop)
 	rc.State("stop|" + state)
